@@ -44,7 +44,8 @@ ASSUMED = [
     "methods, and ints of more than sys.get_int_max_str_digits() digits, are outside the model; for an element "
     "that is itself a serif Vector str(v) is that vector's own repr, i.e. the same function on a smaller object); "
     "the partial primitives the model tracks are: v != v / v in (inf, -inf) / int(v) / format(v, '.1f'/'g') in "
-    "float columns (format of an int converts it with float(v): OverflowError beyond the float range), "
+    "float columns (format of an int converts it with float(v): OverflowError beyond the float range, caught by "
+    "display.py, which then shows str(v)), "
     "v.isoformat() in date columns, str methods on names; no primitive is applied to a value before its dtype "
     "branch (the row-gap marker _ROW_GAP and the hidden-columns cell _HIDDEN are private objects compared by "
     "identity, and are assumed not to be stored as data or names)",
@@ -53,15 +54,12 @@ ASSUMED = [
     "distinct kinds print distinct __name__s (the header/footer logic compares dtype tokens as text)",
     "column alignment (str.ljust/rjust) and the dot-access row (.a_b, property C17) are not part of the structure",
 ]
-LEVEL_TEXT = ("theorems (all vectors / tables, all budgets): purity, footer truthfulness, exact preview and headers "
-              "= stored names hold of the model of display.py with NO side condition on values or names (nested "
-              "Vector elements, cells equal to '...', columns named '...' included); totality holds for every "
-              "well-typed (C03), rectangular (C02) input in which no float column holds an int beyond the float "
-              "range, and is refuted without that condition (NEW-C20-3)")
-LEVEL_NOTE = ("totality is proved relative to the declared list of partial primitives; the one input family left "
-              "on which repr raises is an int beyond the float range inside a float column "
-              "(Vector([1.5, 10**400]): OverflowError from f\"{v:.1f}\"), which refutes unconditional totality "
-              "(C20_repr_total_statement_refuted, NEW-C20-3)")
+LEVEL_TEXT = ("theorems (all vectors / tables, all budgets): totality (for every well-typed (C03), rectangular (C02) "
+              "input), purity, footer truthfulness, exact preview and headers = stored names hold of the model of "
+              "display.py with NO side condition on values or names (nested Vector elements, cells equal to '...', "
+              "columns named '...', ints beyond the float range inside float columns included)")
+LEVEL_NOTE = ("totality is proved relative to the declared list of partial primitives (see the assumptions); that "
+              "list is the declared limit of this property")
 DESIGN_REF = "DESIGN.md §4 C20"
 
 MAX_HEAD_COLS = 5
@@ -176,8 +174,14 @@ def streams(rng, tier):
     for k in ("int", "float", "str"):
         vec.append({"k": "vec", "vals": [], "name": ["s", "na"], "dtype": k, "glob": "keep", "mode": "full"})
     for nm in NAMES:
-        for kind in ("int", "str", "object"):
+        # (bool: the name 0 prints the text of format(False, 'g'), one of the texts a False cell is looked up
+        # under; the parser must still take that first line for the line of the name)
+        for kind in ("int", "str", "object", "bool"):
             vec.append({"k": "vec", "vals": column(kind, 0, 3, "none"), "name": nm, "glob": "keep", "mode": "full"})
+    # a float column may hold ints, also ints beyond the float range (float(v) overflows)
+    for glob in ("keep", ["set", 2]):
+        vals = [["f", (1000.5).hex()], ["i", 10 ** 400], ["f", (1002.0).hex()], ["i", 1003], ["i", -(2 ** 1024)]]
+        vec.append({"k": "vec", "vals": vals, "name": ["s", "na"], "glob": glob, "mode": "full"})
     out.append(("vec", vec))
     # ---- tables
     tbl = []
@@ -207,6 +211,9 @@ def streams(rng, tier):
             for c in cols:
                 c[0] = None
         tbl.append({"k": "tbl", "cols": cols, "glob": glob, "override": override, "mode": "full"})
+    tbl.append({"k": "tbl", "cols": [[["s", "na"], [["f", (1000.5).hex()], ["i", 10 ** 400]]],
+                                     [["s", "Nb"], [["i", 2000], ["i", 2 ** 1024]]]],
+                "glob": "keep", "override": "keep", "mode": "full"})
     out.append(("tbl", tbl))
     # ---- data and names that look like the markers: '...' is a cell / a name like any other
     dots = []
@@ -289,6 +296,13 @@ def hostile_cases(rng, n):
          "override": "keep"},
         {"k": "tbl", "cols": [[["s", "a"], [["f", "nan"], ["f", "inf"]]], [["f", "nan"], [["N"], ["N"]]]],
          "override": ["set", 1]},
+        # an EMPTY Vector as the first cell has shape (): the table stays two-dimensional
+        {"k": "tbl", "cols": [[["s", "a"], [["V", []], ["i", 5]]], [["s", "b"], [["i", 1], ["i", 2]]]],
+         "override": "keep"},
+        # Vector([Vector([x])]) is itself a Table: a table of tables (observe marks it tensor_cols; totality and
+        # purity only)
+        {"k": "tbl", "cols": [[None, [["V", [["s", "..."]]]]], [None, [["i", 2]]], [None, [["i", 3]]]],
+         "override": "keep"},
     ]
     for c in fixed:
         for glob in ("keep", ["set", 1]):
@@ -969,14 +983,4 @@ def neighbours(case, rng):
 
 
 def known(case, obs, why):
-    """NEW-C20-3: a float column holding an int beyond the float range: f"{v:.1f}" converts the int with
-    float(v), which raises OverflowError."""
-    if why.startswith("raises") and "OverflowError" in obs.get("msg", "") and "too large to convert to float" in obs["msg"]:
-        if case["k"] == "vec":
-            cols = [(obs.get("schema"), case["vals"])]
-        else:
-            cols = list(zip(obs.get("schema") or [], [vs for _, vs in case["cols"]]))
-        for sc, tags in cols:
-            if sc and sc[0] == "KFloat" and any(t[0] == "i" and _beyond_float(t[1]) for t in tags):
-                return "NEW-C20-3"
     return None
